@@ -45,6 +45,9 @@ def _key_of(node):
     return None
 
 
+_NONE = object()
+
+
 class Extractor:
     """mode 'save' or 'load'. `resolve_super(func)` returns the parent implementation or None."""
 
@@ -93,14 +96,30 @@ class Extractor:
 
     def _stmt(self, st, p, out, func, depth):
         if isinstance(st, ast.If):
+            # `A or B`, `A and B`, `not A` are desugared so that every leaf test is a single
+            # comparison the path can record (and contradict)
+            t = st.test
+            if isinstance(t, ast.UnaryOp) and isinstance(t.op, ast.Not):
+                return self._stmt(ast.If(test=t.operand, body=st.orelse or [ast.Pass()],
+                                         orelse=st.body), p, out, func, depth)
+            if isinstance(t, ast.BoolOp) and len(t.values) >= 2:
+                first = t.values[0]
+                rest = t.values[1] if len(t.values) == 2 else ast.BoolOp(op=t.op,
+                                                                         values=t.values[1:])
+                inner = ast.If(test=rest, body=st.body, orelse=st.orelse)
+                if isinstance(t.op, ast.Or):
+                    return self._stmt(ast.If(test=first, body=st.body, orelse=[inner]),
+                                      p, out, func, depth)
+                return self._stmt(ast.If(test=first, body=[inner], orelse=st.orelse),
+                                  p, out, func, depth)
             res = []
             pt, pf = p.copy(), p.copy()
-            self._cond(st.test, pt, pf)
+            ft, ff = self._cond(st.test, pt, pf)
             self._events(st.test, pt)
             self._events(st.test, pf)
-            if pt is not None:
+            if ft:
                 res += self._block(st.body, pt, out, func, depth)
-            if pf is not None:
+            if ff:
                 res += self._block(st.orelse, pf, out, func, depth)
             return res
         if isinstance(st, (ast.For, ast.While)):
@@ -182,15 +201,20 @@ class Extractor:
                     a, b = (pt, pf) if isinstance(op, ast.In) else (pf, pt)
                     a.present.add((kind, l.value))
                     b.absent.add((kind, l.value))
-                    return
+                    return True, True
             if isinstance(op, (ast.Eq, ast.NotEq)) and isinstance(l, ast.Name) and isinstance(
                     r, ast.Constant):
                 a, b = (pt, pf) if isinstance(op, ast.Eq) else (pf, pt)
+                # feasibility against what the path already knows about this discriminator
+                fa = not ((l.id in a.disc and a.disc[l.id] != r.value) or
+                          r.value in a.disc_not.get(l.id, ()))
+                fb = not (b.disc.get(l.id, _NONE) == r.value)
                 a.disc[l.id] = r.value
                 b.disc_not.setdefault(l.id, set()).add(r.value)
-                return
+                return (fa, fb) if isinstance(op, ast.Eq) else (fb, fa)
         pt.conds.append(unparse(test))
         pf.conds.append('not (%s)' % unparse(test))
+        return True, True
 
     def _events(self, node, p):
         for c in ast.walk(node):
